@@ -302,6 +302,16 @@ pub fn run(run: &Run) {
             run.eval_one("route", &Case { cfg, perm_loggers: vec![2, 0, 1], perm_appenders: vec![1, 2, 0], targets, failing: vec![], prior_panics: 0, via_root_mut: None }, &check);
         }
     }
+    if run.worker.0 == 3 % run.worker.1 {
+        // families of 2-40 and of 300 siblings below the root, a logger and a deep logger
+        for parent in ["", "app", "app::net::x"] {
+            for n in (2usize..=40).chain([64, 65, 300]) {
+                let (cfg, targets) = cfgtree::sibling_family(parent, n);
+                let k = cfg.loggers.len() as u16;
+                run.eval_one("route", &Case { cfg, perm_loggers: (0..k).map(|i| (i * 7 + 3) % k.max(1)).collect(), perm_appenders: vec![4, 2, 0, 3, 1], targets, failing: vec![], prior_panics: 0, via_root_mut: None }, &check);
+            }
+        }
+    }
     let n = run.tier.pick(3_000, 200_000);
     run.search("route", n, strategy(), &check);
 }
@@ -320,7 +330,7 @@ pub fn replay(part: &str, case: serde_json::Value) -> Option<CaseResult> {
 pub fn meta() -> EvidenceMeta {
     EvidenceMeta {
         level: "exploration",
-        rule: "cases = generated configurations (cfgtree: <=8 loggers over the component alphabet {a,b,ab,aa,ba,é}, built with descendant / skipped-level / textual-sibling / leading-'::' biases, 1-5 capture appenders, repeats allowed) x 2-6 targets derived from the configuration x 5 levels, each also under a permuted declaration order; oracle = independent component-wise route() model; Probe records carry the name of a configured logger as their module path (it must not matter); in a quarter of the cases the root level is set through Config::root_mut() after build. Lists reach the builders through a mix of singular and bulk calls; 10% of the cases start after 1-11 caught appender panics on the same thread (through another logger); per case one appender logs a nested record from inside append and the nested record must be routed once per delivery of the outer one. Fixed configurations with loggers 64-4097 components deep. A fixed list of look-alike sibling names (published collisions of FNV-1a 64/32, FNV-1, Java hashCode, djb2, CRC-32; anagrams; names equal after case folding, normalisation, trimming) is routed as well. non-trivial = >=2 loggers and a probe whose effective logger is non-root and reached through an additive=false logger, an implied intermediate or next to a textual-prefix sibling; distinct = FNV hash of the whole case".into(),
+        rule: "cases = generated configurations (cfgtree: <=8 loggers over the component alphabet {a,b,ab,aa,ba,é}, built with descendant / skipped-level / textual-sibling / leading-'::' biases, 1-5 capture appenders, repeats allowed) x 2-6 targets derived from the configuration x 5 levels, each also under a permuted declaration order; oracle = independent component-wise route() model; Probe records carry the name of a configured logger as their module path (it must not matter); in a quarter of the cases the root level is set through Config::root_mut() after build. Lists reach the builders through a mix of singular and bulk calls; 10% of the cases start after 1-11 caught appender panics on the same thread (through another logger); per case one appender logs a nested record from inside append and the nested record must be routed once per delivery of the outer one. Fixed configurations with loggers 64-4097 components deep, and with families of 2-40, 64, 65 and 300 sibling loggers below the root, a logger and a deep logger. A fixed list of look-alike sibling names (published collisions of FNV-1a 64/32, FNV-1, Java hashCode, djb2, CRC-32; anagrams; names equal after case folding, normalisation, trimming) is routed as well. non-trivial = >=2 loggers and a probe whose effective logger is non-root and reached through an additive=false logger, an implied intermediate or next to a textual-prefix sibling; distinct = FNV hash of the whole case".into(),
         assumptions: vec!["appenders are harness Append implementations; real appenders are covered by C14".into()],
         mutants_caught: vec![],
     }
